@@ -390,6 +390,21 @@ def gen_cases(run: Run):
         k = rng.choice(['G', 'V']) if m != 'v1' else 'G'
         cases.append({'k': k, 'm': m, 'op': rng.choice(OPS), 'l': [rand_item(rng, rng.choice(grp))],
                       'r': [rand_item(rng, rng.choice(grp))]})
+    # (2b) pairs of doubles / floats at relative distances around the isclose tolerance (1e-7)
+    for _ in range(run.scale(1200, 20000)):
+        base = rng.choice([1.0, 3.0, 1e10, 1e-5, 123.456, -7.25, 2.0 ** 60, 1e-300, 1e300, 0.1, -1e-7])
+        delta = rng.choice([1, -1]) * rng.choice([0, 1e-9, 3e-8, 9e-8, 9.9e-8, 9.99e-8, 1e-7, 1.0000001e-7, 1.001e-7,
+                                                  1.01e-7, 1.1e-7, 2e-7, 5e-7, 9e-7, 1e-6, 1.1e-6, 1e-5, 1e-3])
+        t = rng.choice(['f', 'f', 'g'])
+        x, y = base, base * (1 + delta)
+        if t == 'g':
+            x, y = f32(rng.choice([1.0, 1.5, 1.9999, 3.0, -7.25, 1000.0])), None
+            y = f32(x * (1 + delta * rng.choice([1, 2])))
+        a, b = (t, x), (t, y)
+        if rng.random() < 0.5:
+            a, b = b, a
+        m = rng.choice(['v2c', 'v2', 'v31'])
+        cases.append({'k': rng.choice(['V', 'V', 'G']), 'm': m, 'op': rng.choice(OPS), 'l': [a], 'r': [b]})
     # (3) sequences of length 0..3 (atoms of any type, element nodes)
     for _ in range(run.scale(7000, 120000)):
         m = rng.choice(MODES)
